@@ -1,0 +1,23 @@
+// +build verif
+// +build amd64
+
+package sleep
+
+import "sync/atomic"
+
+// commitSleep is the Go variant of commit_noasm.go, used under the verif build
+// tag on amd64 where the assembly variant does not assemble with current
+// toolchains.
+func commitSleep(g uintptr, waitingG *uintptr) bool {
+	for {
+		// Check if the wait was aborted.
+		if atomic.LoadUintptr(waitingG) == 0 {
+			return false
+		}
+
+		// Try to store the G so that wakers know who to wake.
+		if atomic.CompareAndSwapUintptr(waitingG, preparingG, g) {
+			return true
+		}
+	}
+}
